@@ -134,6 +134,9 @@ func (g *c23Gen) corpus() {
 	a("reset 8 8 3", "add 0:0:1:5 1:1:2:5 2:2:3:7", "stream 1", "add 0:0:1:5", "prepare 1", "start", "add 0:0:1:5", "stream 5", "finish 1:1:2:5", "pop", "pop")
 	a("reset 1 1 3", "add 0:0:1:5 1:1:2:5", "start", "stream 0", "stream 4", "stream 4", "add 1:1:2:5", "finish 0:0:1:5", "pop", "pop")
 	a("reset 0 0 3", "add 0:0:1:5", "len", "pop", "setmin 9", "start", "stream 1", "finish 0:0:1:5", "len")
+	// API misuse (not builder.go): a prefetch made before start survives the reset of streamedItems,
+	// so x (id 0) is returned by Stream twice within one stream (Props/C23 double_handout_without_protocol)
+	a("reset 8 8 3", "add 0:0:1:5 1:1:2:5", "prepare 1", "start", "add 0:0:1:5", "stream 1", "stream 1", "stream 1", "finish")
 	// hang detector: a second start before finish never returns
 	a("reset 4 2 3", "add 0:0:1:5", "start", "stream 1", "start")
 }
@@ -368,6 +371,8 @@ func TestVerifC23(t *testing.T) {
 		seen    map[int]c23Item // id -> tuple seen in this sequence (alias detection)
 		aliased bool
 		handed  map[int]bool // ids handed out in the current stream period
+		retIDs  map[int]bool // ids RETURNED BY Stream since the last successful StartStreaming
+		misuse  bool         // PrepareStream was called outside a stream (protocol assumption violated)
 		seq     []string
 		nontriv bool
 	)
@@ -406,7 +411,7 @@ func TestVerifC23(t *testing.T) {
 			m = New[*c23Item](trace.Noop, int(a), int(b))
 			S = int(c)
 			ref = &c23Ref{maxSize: int(a), maxSponsor: int(b)}
-			seen, handed = map[int]c23Item{}, map[int]bool{}
+			seen, handed, retIDs, misuse = map[int]c23Item{}, map[int]bool{}, map[int]bool{}, false
 			r.Emit(l, "ok ; "+c23Dump(m, S))
 			continue
 		}
@@ -559,6 +564,7 @@ func TestVerifC23(t *testing.T) {
 			locked = true
 			ref.streamed = map[int]bool{}
 			handed = map[int]bool{}
+			retIDs = map[int]bool{}
 		case len(f) == 2 && (f[0] == "prepare" || f[0] == "stream"):
 			n, err := strconv.ParseUint(f[1], 10, 16)
 			if err != nil {
@@ -566,6 +572,10 @@ func TestVerifC23(t *testing.T) {
 				break
 			}
 			if f[0] == "prepare" {
+				if !locked {
+					misuse = true // assumption "PrepareStream only inside a stream" does not hold here
+					r.Count("ev:prepare-outside-stream")
+				}
 				if ref.fetched && len(ref.next) > 0 {
 					r.Count("ev:prefetch-lost")
 				}
@@ -588,6 +598,20 @@ func TestVerifC23(t *testing.T) {
 				}
 				if !c23Same(out, want) {
 					oracle("fifo", "stream %d returned %s, arrival order says %s", n, res, c23Items(want, " "))
+				}
+				if locked {
+					// history-level clause: no id is RETURNED by Stream twice between StartStreaming and
+					// FinishStreaming (holds when PrepareStream is only used inside a stream)
+					for _, it := range out {
+						if retIDs[it.id] {
+							if misuse {
+								r.Count("ev:double-handout-prefetch-before-start")
+							} else {
+								oracle("double-handout-stream", "Stream returned id %d twice between StartStreaming and FinishStreaming", it.id)
+							}
+						}
+						retIDs[it.id] = true
+					}
 				}
 				if len(out) > 0 && locked {
 					r.Count("ev:streamed-some")
@@ -640,6 +664,8 @@ func TestVerifC23(t *testing.T) {
 				nontriv = true
 			}
 			handed = map[int]bool{}
+			retIDs = map[int]bool{}
+			misuse = false
 		case len(f) == 2 && f[0] == "top":
 			ans := f[1]
 			if ans == "-" {
